@@ -108,6 +108,10 @@ func ruleChildVisit(p *Prog, r *Result) {
 						if !ok || !ta.CommaOk || !p.derivesFromField(ta.X, t.Obj().Name(), f, traceOpts{}) {
 							return
 						}
+						// only tests for leaf kinds count: a node with children of its own has to be checked
+						if nt := namedOf(ta.AssertedType); nt == nil || len(childFields(p, nt)) > 0 {
+							return
+						}
 						if ex := extractOf2(ta, 1); ex != nil {
 							tests = append(tests, ex)
 						}
